@@ -186,6 +186,15 @@ def node_paths(tree) -> Dict[Any, str]:
     return out
 
 
+def fam_name(f: int) -> str:
+    """gene families are strings in the package (GeneFamily = str)"""
+    return f"f{f:02d}"
+
+
+def fam_id(name: str) -> int:
+    return int(name[1:])
+
+
 class Built:
     """An implementation input built from a JSON-able case."""
 
@@ -200,7 +209,8 @@ class Built:
 
         def cb(node, prefix, leaf):
             leafmap[node] = self.snode[leaf["sp"]]
-            syn[node] = (set(leaf.get("syn", [])) if unordered else list(leaf.get("syn", [])))
+            names = [fam_name(f) for f in leaf.get("syn", [])]
+            syn[node] = (set(names) if unordered else names)
         self.otree = build_tree(O, "", "O", cb)
         self.opath = node_paths(self.otree)
         self.onode = {p: n for n, p in self.opath.items()}
@@ -220,7 +230,7 @@ class Built:
         def go(n):
             s = spath[out.object_species[n].name]
             if labelled:
-                y = out.syntenies[n]
+                y = [fam_id(f) for f in out.syntenies[n]]
                 y = sorted(y) if not out.ordered else list(y)
                 if n.is_leaf():
                     return [s, y]
@@ -242,7 +252,7 @@ class Built:
                 return
             mapping[n] = self.snode[r[0]]
             if labelled:
-                syn[n] = list(r[1]) if ordered else set(r[1])
+                syn[n] = [fam_name(f) for f in r[1]] if ordered else {fam_name(f) for f in r[1]}
                 if len(r) == 4:
                     go(r[2], p + "0"); go(r[3], p + "1")
             else:
